@@ -28,6 +28,7 @@ var reviewedDropped = map[string]string{
 	"(*leveldb.DB).recoverJournalRO|iface:leveldb/storage.Reader.Close":   "closing a journal opened for reading",
 	"(*leveldb.DB).recoverJournal|iface:leveldb/storage.Reader.Close":     "closing a journal opened for reading",
 	"(*leveldb.DB).recoverJournal|(*leveldb/journal.Reader).Reset":        "Reset only reports the previous journal's latched read error, which was already handled",
+	"(*leveldb.DB).recoverJournalRO|(*leveldb/journal.Reader).Reset":      "same as recoverJournal (D11: propagating it failed every read-only open with two live journals); agreement of the two is checked by C18.7",
 	"(*leveldb.DB).recoverJournal|(*leveldb/journal.Writer).Close":        "error path teardown of the freshly created journal",
 	"(*leveldb.DB).recoverJournal|iface:leveldb/storage.Writer.Close":     "error path teardown of the freshly created journal",
 	"(*leveldb.Transaction).Commit|(*leveldb.DB).waitCompaction":          "documented: the transaction is already committed; back-pressure wait only",
